@@ -347,6 +347,29 @@ func c0910(args []string) error {
 			emitLaw(tc, ts, c, sh)
 			emitLaw(ts, tc, sh, c)
 		}
+		// shapes in a corner of the circle's rectangle, outside the disc, against collections that hold the circle
+		d := cfg.r / 111195
+		corner := []geojson.Object{
+			geojson.NewRect(geometry.Rect{Min: geometry.Point{X: centre.X + 0.8*d, Y: centre.Y + 0.8*d}, Max: geometry.Point{X: centre.X + 0.97*d, Y: centre.Y + 0.97*d}}),
+			geojson.NewPoint(geometry.Point{X: centre.X - 0.9*d, Y: centre.Y + 0.9*d}),
+			geojson.NewLineString(geometry.NewLine([]geometry.Point{{X: centre.X + 0.8*d, Y: centre.Y - 0.95*d}, {X: centre.X + 0.95*d, Y: centre.Y - 0.8*d}}, nil)),
+		}
+		holders := []geojson.Object{geojson.NewFeatureCollection([]geojson.Object{c}),
+			geojson.NewGeometryCollection([]geojson.Object{geojson.NewPoint(geometry.Point{X: 50, Y: 50}), c, geojson.NewFeature(c, "")})}
+		for ci2, cs := range corner {
+			for hi, h := range holders {
+				emitLaw(placeholder([]string{"FeatureCollection", "GeometryCollection"}[hi]), placeholder([]string{"Rect", "Point", "LineString"}[ci2]), h, cs)
+				any1, any2 := false, false
+				for _, ch := range h.(geojson.Collection).Children() {
+					any1 = any1 || ch.Intersects(cs)
+					any2 = any2 || cs.Intersects(ch)
+				}
+				ev.Emit(obj{"op": "compose", "what": fmt.Sprintf("holds a circle of %v m; intersects a shape in the corner of its box", cfg.r), "kind": fmt.Sprintf("%T", h),
+					"got": h.Intersects(cs), "some_child": any1})
+				ev.Emit(obj{"op": "compose", "what": fmt.Sprintf("holds a circle of %v m; a shape in the corner of its box intersects it", cfg.r), "kind": fmt.Sprintf("%T", h),
+					"got": cs.Intersects(h), "some_child": any2})
+			}
+		}
 	}
 	for _, r := range []float64{0.1, 0.25, 2} {
 		centre := geometry.Point{X: 1, Y: 1}
@@ -541,6 +564,8 @@ func placeholder(kind string) Tree {
 		return Tree{Kind: kind, Rings: [][][]int{{{1, 1}, {1, 1}, {1, 1}, {1, 1}}}}
 	case "Rect":
 		return Tree{Kind: kind, Min: []int{1, 1}, Max: []int{1, 1}}
+	case "Point":
+		return Tree{Kind: kind, P: []int{1, 1}}
 	}
 	return Tree{Kind: kind, Kids: []Tree{{Kind: "Point", P: []int{1, 1}}}}
 }
